@@ -967,7 +967,19 @@ def step_path_funcs(repo: Repo) -> List[Func]:
     return [f for f in repo.all_funcs() if not f.relpath.startswith(STEP_PATH_EXCLUDE)]
 
 
-def rule_enter_installs(ctx: Ctx, clause: str, rule="TS.enter-installs"):
+def _bounded_previous(path: flow.Path, state_names: Set[str]) -> Optional[Set[str]]:
+    """Activity classes the path condition pins the vehicle's PREVIOUS activity to (`isinstance(<...>.vehicle_state, K)` true)."""
+    out: Set[str] = set()
+    for a, pol in path.facts():
+        if pol is True and isinstance(a, ast.Call) and flow.dump(a.func) == "isinstance" and len(a.args) == 2 and flow.dump(a.args[0]).endswith(".vehicle_state"):
+            ks = a.args[1].elts if isinstance(a.args[1], ast.Tuple) else [a.args[1]]
+            names = {flow.dump(k) for k in ks}
+            if names <= state_names:
+                out |= names
+    return out or None
+
+
+def rule_enter_installs(ctx: Ctx, clause: str, rule="TS.enter-installs", prev_holders: Optional[Set[str]] = None):
     """Every success path of every enter() installs the activity: its result derives from apply_new_vehicle_state(...)
     or from a delegated sibling enter. An enter that reports success with a state in which the vehicle's activity was
     not written makes a transition (and an instruction) look applied while the previous activity's exit has already
@@ -978,6 +990,12 @@ def rule_enter_installs(ctx: Ctx, clause: str, rule="TS.enter-installs"):
             n += 1
             v = m.path.value
             ok = enter_delegate(v) is not None or bool(flow.calls_in(v, "apply_new_vehicle_state")) if v is not None else False
+            if not ok and prev_holders is not None:
+                prev = _bounded_previous(m.path, {s.name for s in states.state_classes(ctx.repo)})
+                if prev is not None and not (prev & prev_holders):
+                    ctx.info(clause, rule, f"{sc.name}.enter: success at line {m.path.lineno} installs nothing, but only after one of {sorted(prev)}", sc.enter, m.path.end,
+                             why="the previous activity on this path holds nothing this property tracks")
+                    continue
             ctx.check(ok, clause, rule, f"{sc.name}.enter: success at line {m.path.lineno} installs the activity", sc.enter, m.path.end,
                       why_ok="result derives from apply_new_vehicle_state / a delegated enter",
                       why_bad=f"path [{m.path.cond_text()[:200]}] returns {flow.dump(v)[:80]} as a success although the vehicle's activity was not written: "
